@@ -484,6 +484,13 @@ def model_lines(cid, case, res):
         else:
             lines.append(f'e {e[0]}')
             stopped = stopped or e[0] == 'stop'
+    # closed form (Eager.greedy, C19_closed_form) vs. what was delivered: complete strict runs only
+    complete = stopped or (res.get('blocked_flag') and n_arr == len(case['arrivals']))
+    if complete and not case.get('lazy') and 'error' not in res and all(isinstance(e[-1], int) for e in res['events']):
+        takes = ';'.join(f'{e[1]}@{e[2]}' for e in res['events'] if e[0] == 'take')
+        outs = '|'.join(','.join(str(x) for x in e[1]) for e in res['events'] if e[0] == 'emit')
+        ats = ','.join(str(e[2]) for e in res['events'] if e[0] == 'emit')
+        lines.append(f'cf takes={takes} out={outs} at={ats}')
     pc = 'done' if stopped else 'idle'
     lines.append(f'end pc={pc} out={n_out} clock={now} q={n_arr - n_take}')
     return lines
